@@ -136,12 +136,12 @@ def run(ctx):
     for a in idx:
         pairs.add((a, a))
     # neighbours in a rough order are the interesting pairs: sort by the code's own key once to pick neighbours (selection only)
-    while len(pairs) < ctx.pick(40000, 1500000):
+    while len(pairs) < ctx.pick(40000, 600000):
         a = rng.randrange(n)
         b = rng.randrange(n) if rng.random() < 0.5 else min(n - 1, max(0, a + rng.randrange(-4, 5)))
         pairs.add((a, b))
     pairs = sorted(pairs)
-    triples = [(rng.randrange(n), rng.randrange(n), rng.randrange(n)) for _ in range(ctx.pick(15000, 400000))]
+    triples = [(rng.randrange(n), rng.randrange(n), rng.randrange(n)) for _ in range(ctx.pick(15000, 150000))]
     jobs = [("text", texts, idx)]
     jobs += [("cmp", texts, pairs[i:i + 5000]) for i in range(0, len(pairs), 5000)]
     jobs += [("triple", texts, triples[i:i + 5000]) for i in range(0, len(triples), 5000)]
@@ -163,7 +163,7 @@ def run(ctx):
     for i, e in enumerate(events):
         e["id"] = i + 1
     shared = {"TEXTS_FILE": [dict(t=glue.cp(t)) for t in texts]}
-    fails, st = tlc.validate_events("Trace_Pep", events, name="C16", shared=shared, chunk=max(2000, len(events) // 16 + 1), xmx="3g")
+    fails, st = tlc.validate_events("Trace_Pep", events, name="C16", shared=shared, chunk=max(2000, len(events) // 16 + 1), xmx="3g", timeout=5400)
     ctx.add_trace(st)
     ctx.count("cmp_events", len(pairs))
     ctx.count("triple_events", len(triples))
